@@ -394,6 +394,11 @@ class Decoder(Coder):
             decoded_values.append(value)
 
 
+from pybufrkit import _verif  # noqa: E402
+
+if _verif.enabled():
+    _verif.instrument(Decoder)
+
 DATA_CATEGORY_DEFINE_BUFR_TABLES = 11
 
 
@@ -411,6 +416,8 @@ def generate_bufr_message(decoder, s, info_only=False, continue_on_error=False, 
     idx_start = 0
     while idx_start < len(s):
         idx_start = s.find(MESSAGE_START_SIGNATURE, idx_start)
+        if _verif.enabled():
+            _verif.emit({'a': 'scan_find', 'at': idx_start, 'len': len(s)})
         if idx_start < 0:
             return
         try:
@@ -438,6 +445,9 @@ def generate_bufr_message(decoder, s, info_only=False, continue_on_error=False, 
                     TableGroupCacheManager.invalidate()
                     TableGroupCacheManager.add_extra_entries(b_entries, d_entries)
             idx_start += len(bufr_message.serialized_bytes)
+            if _verif.enabled():
+                _verif.emit({'a': 'scan_ok', 'next': idx_start, 'matched': bool(matched),
+                             'nbytes': len(bufr_message.serialized_bytes)})
 
             if matched:
                 yield bufr_message
@@ -455,3 +465,5 @@ def generate_bufr_message(decoder, s, info_only=False, continue_on_error=False, 
                     idx_start += bufr_message.length.value
                 except PyBufrKitError:
                     idx_start += 1
+            if _verif.enabled():
+                _verif.emit({'a': 'scan_error', 'next': idx_start, 'error': type(e).__name__})
